@@ -357,9 +357,11 @@ class Tree:
         item = klass(data)
         top.append(item)
 
-    def enclose(self, name: str):
+    def enclose(self, name: str) -> bool:
         """When a closing tag is found, pop the pointer's scope from the stack,
         to then point to the earlier scope's tag.
+
+        :returns: False if no open element has this name
         """
         count = 0
         for ind in reversed(self.stack):
@@ -372,6 +374,7 @@ class Tree:
         # It pops all the items which do not match with the closing tag.
         for _ in range(count):
             self.stack.pop()
+        return count > 0
 
 
 class HtmlToAst(HTMLParser):
@@ -429,8 +432,9 @@ class HtmlToAst(HTMLParser):
 
     def handle_endtag(self, name: str):
         """When found a closing tag then makes it point to the right scope."""
-        if name not in self.void_elements:
-            self.struct.enclose(name)
+        if name not in self.void_elements and not self.struct.enclose(name):
+            # an end tag without an open element: keep it, rather than drop it
+            self.struct.nest_terminal(Data, f"</{name}>")
 
     def handle_data(self, data: str):
         """Nest data onto the tree."""
